@@ -187,3 +187,88 @@ def gen_avar(rnd, shape, tags):
                         m[side * a / F] = side * b / F
         out[t] = m
     return out
+
+
+# ---------------------------------------------------------------- delta-set index maps (HVAR/VVAR/avar2/COLR VarIndexMap)
+IDXMAP_SHAPES = ["inner_pow2", "inner_pow2_minus1", "inner_pow2_plus1", "outer_pow2", "outer_pow2_minus1", "outer_pow2_plus1",
+                 "entry_size_boundary", "single_row", "no_variation", "trailing_run", "random"]
+
+
+def gen_index_map(rnd, shape, n, big=False):
+    """-> [(outer, inner)] * n (one entry per glyph / slot).  The binary entry format packs outer and inner index with
+    innerBits = bits of the OR of all inner indices and 1..4 bytes per entry: the shapes put that OR (and the OR of the
+    outer indices, and the sum of both widths) at 2^k - 1, 2^k and 2^k + 1."""
+    kmax = 15 if big else 9
+    def ored(target, cnt):
+        """`cnt` values whose OR is exactly `target` (sparse: single bits and sub-masks)."""
+        bits = [1 << b for b in range(target.bit_length()) if target >> b & 1]
+        if not bits:
+            return [0] * cnt
+        vals = [0] * cnt if rnd.random() < 0.5 else [rnd.choice(bits) for _ in range(cnt)]
+        for i, b in enumerate(bits):
+            vals[rnd.randrange(cnt)] |= b if rnd.random() < 0.5 else 0
+        # make sure every bit occurs and nothing else does
+        for b in bits:
+            if not any(v & b for v in vals):
+                vals[rnd.randrange(cnt)] |= b
+        return vals
+    k = rnd.randint(1, kmax)
+    inner_t, outer_t = rnd.choice([0, 1, 3, 7]), rnd.choice([0, 1, 2])
+    if shape.startswith("inner_pow2"):
+        inner_t = max(0, (1 << k) + {"inner_pow2": 0, "inner_pow2_minus1": -1, "inner_pow2_plus1": 1}[shape])
+    elif shape.startswith("outer_pow2"):
+        ko = rnd.randint(1, 9 if big else 5)
+        outer_t = max(0, (1 << ko) + {"outer_pow2": 0, "outer_pow2_minus1": -1, "outer_pow2_plus1": 1}[shape])
+    elif shape == "entry_size_boundary":
+        total = rnd.choice([8, 9, 16, 17] + ([24, 25] if big else []))
+        ib = rnd.randint(max(1, total - (9 if big else 6)), min(total - 1, 16 if big else 12))
+        ob = total - ib
+        inner_t = rnd.choice([(1 << ib) - 1, 1 << (ib - 1)])
+        outer_t = rnd.choice([(1 << ob) - 1, 1 << (ob - 1)])
+    elif shape == "single_row":
+        r = rnd.choice([0, 1, 2, 4, 5, 16, 64])
+        return [(0, r)] * n
+    elif shape == "random":
+        return [(rnd.randrange(3), rnd.randrange(1 << k)) for _ in range(n)]
+    inner = ored(inner_t, n)
+    outer = ored(outer_t, n)
+    out = list(zip(outer, inner))
+    if shape == "no_variation":
+        out = [(0xFFFF, 0xFFFF) if rnd.random() < 0.4 else e for e in out]
+    if shape == "trailing_run" and n > 3:
+        t = rnd.randint(1, n - 1)
+        out = out[:n - t] + [out[n - t - 1]] * t
+    return out
+
+
+# ---------------------------------------------------------------- gvar with a number of shared peak tuples at the 12-bit limit
+def gen_gvar_shared_count(rnd, k):
+    """k distinct peak tuples, each used by two glyphs (=> candidates for the shared tuple list, whose index field has
+    12 bits).  Tiny glyphs (1 point), at most 2500 tuples per glyph."""
+    tags = ["wght"] if rnd.random() < 0.5 else ["wght", "wdth"]
+    glyphs = [{"kind": "simple", "contours": [], "instructions": b""}]
+    variations = {}
+    peaks = list(range(1, k + 1))
+    chunk = 2500
+    gi = 0
+    for lo in range(0, k, chunk):
+        part = peaks[lo:lo + chunk]
+        for _twice in range(2):
+            gi += 1
+            glyphs.append({"kind": "simple", "contours": [[(rnd.randint(0, 40), rnd.randint(0, 40), True)]], "instructions": b""})
+            tl = []
+            for p in part:
+                reg = {"wght": (0.0, p / F, p / F)}
+                if len(tags) == 2:
+                    q = (p * 7) % 16384 + 1
+                    reg["wdth"] = (0.0, q / F, q / F)
+                d = (p % 7 - 3, (p // 7) % 5 - 2)
+                tl.append({"region": reg, "deltas": [d, (0, 0), (d[1], 0), (0, 0), (0, 0)]})
+            variations[gi] = tl
+    # a few peaks used only once (never shared) and one used three times
+    gi += 1
+    glyphs.append({"kind": "simple", "contours": [[(5, 5, True)]], "instructions": b""})
+    variations[gi] = [{"region": {"wght": (-1.0, -1.0, 0.0)}, "deltas": [(1, 1)] * 5},
+                      {"region": {"wght": (0.0, 1 / F, 1 / F)} if len(tags) == 1 else {"wght": (0.0, 1 / F, 1 / F), "wdth": (0.0, 8 / F, 8 / F)},
+                       "deltas": [(2, -2)] * 5}]
+    return {"axes": tags, "glyphs": glyphs, "variations": variations}
